@@ -6,7 +6,7 @@ import c04_ref as R
 from c04_gen import gen_cases            # noqa: F401  (API)
 
 PROP = 'C04'
-LEAN_MODULES = ['PMV.Lemmas.Bcast', 'PMV.Props.C04']
+LEAN_MODULES = ['PMV.Lemmas.Bcast', 'PMV.Lemmas.DispatchRules', 'PMV.Props.C04']
 PARALLEL = True
 MANIFEST = {
     'text': 'Kernel-checked theorems (PMV/Lemmas/Bcast.lean, PMV/Props/C04.lean) about a code-shaped Lean model of the '
